@@ -20,5 +20,7 @@ for s in $seeds; do
     fi
   done
   git -C /repo checkout -- . ; git -C /repo clean -fdq -- . >/dev/null 2>&1
+  # the evidence files written while the seeded change was applied describe the changed tree: restore the committed ones
+  git -C /verif checkout -- evidence >/dev/null 2>&1
   echo "$s:$res"
 done
